@@ -136,6 +136,15 @@ CHECKS = {
                 "untouched. Circle cut-outs are attributed to the recorded half-radius finding. Exploration only.",
         "note": "first_occurrence and left_of are not among the listed reference kinds (lenient).",
     },
+    "C15": {
+        "technique": "property-based / model-based testing: generated histories of writer constructions and writes; "
+                     "oracle = reference contents produced by fresh writers before the history starts (differential), "
+                     "byte comparison modulo the date stamp, SKIP leaves bytes untouched",
+        "text": "Hundreds of histories per quick run interleaving up to 5 XML / protobuf writers with 2-3 precisions "
+                "over 1-3 scenarios, write_to_file / write_scenario_to_file / overwrite / SKIP; references are "
+                "cross-checked with the C01/C02 comparator. Exploration only.",
+        "note": "Scenario content restricted to what both formats carry; date stamp normalised.",
+    },
 }
 
 NOT_APPLICABLE = [{"property_id": p, "reason": "check not built yet (work in progress; will be claimed once its "
